@@ -84,7 +84,7 @@ FINDINGS += [
 
 FINDINGS += [
  F("C14", "C14 mimc.Sum package function nil byteOrder", "ffc0a2b", "package-level mimc.Sum(msg) panicked for every non-empty message (zero-value digest, nil byteOrder)", "C14 mimc fn bn254 ... <32 B>", "ecc/*/fr/mimc/mimc.go:166"),
- K("C14", "C14 registered small-field Poseidon2 hashers cannot hash", "POSEIDON2_KOALABEAR / _BABYBEAR / _GOLDILOCKS: NewMerkleDamgardHasher uses BlockSize() = fr.Bytes (4 or 8) and an iv of that size, but Compress demands (t/2)·Bytes = 32 bytes: every non-empty Write fails", r"^C14 md (reg|new) (koalabear|babybear|goldilocks) ", r".", r".", "field/*/poseidon2/hash.go NewMerkleDamgardHasher, poseidon2.go BlockSize/Compress", "C14 md reg koalabear 10 6 15 … W:<32 B> S:-"),
+ F("C14", "C14 registered small-field Poseidon2 hashers cannot hash", "9dff8ae", "POSEIDON2_KOALABEAR / _BABYBEAR / _GOLDILOCKS: NewMerkleDamgardHasher used BlockSize() = fr.Bytes (4 or 8) and an iv of that size, but Compress demands (t/2)·Bytes = 32 bytes: every non-empty Write failed", "C14 md koalabear …", "field/*/poseidon2/hash.go, poseidon2.go BlockSize"),
  F('C14', 'C14 sis.NewRSis logTwoBound = 0 divides by zero', '31f1c7c', 'NewRSis(_,_,0,_) divided by zero', "", ""),
 ]
 
